@@ -252,6 +252,34 @@ func countBlock(spec *common.Spec, c Counters, ev *blockEvent, pre *absstate.Sta
 			}
 		}
 	}
+	// attester slashings whose intersection mixes slashable and non-slashable validators (the latter are skipped)
+	for _, as := range b.ASlash {
+		in2 := map[int]bool{}
+		for _, i := range as.A2.Indices {
+			in2[i] = true
+		}
+		yes, no := 0, 0
+		for _, i := range as.A1.Indices {
+			if in2[i] && i < len(pre.Validators) {
+				v := pre.Validators[i]
+				if !v.Slashed && v.Act <= epoch && epoch < v.Wd {
+					yes++
+				} else {
+					no++
+					if v.Slashed {
+						c.Add("attester_slashing_includes_already_slashed", 1)
+					} else if v.Act > epoch {
+						c.Add("attester_slashing_includes_not_yet_active", 1)
+					} else {
+						c.Add("attester_slashing_includes_withdrawable", 1)
+					}
+				}
+			}
+		}
+		if yes > 0 && no > 0 {
+			c.Add("attester_slashing_with_unslashable_member", 1)
+		}
+	}
 	// deposits to existing validators (top-ups): of an exited validator / marks for the hysteresis class
 	for _, d := range b.Deposits {
 		for i := range pre.Validators {
@@ -390,6 +418,7 @@ func countNeg(c Counters, ev *blockEvent, pre *absstate.State) {
 	c.Add("neg_class_"+ev.Class, 1)
 	c.Add("neg_class_"+ev.Class+"_"+pre.Fork, 1)
 	c.Add("neg_variant_"+ev.Variant+"_"+out, 1)
+	c.Add("neg_vf_"+ev.Variant+"_"+pre.Fork, 1)
 	if ev.Clamped {
 		c.Add("neg_clamped", 1)
 	}
